@@ -177,6 +177,63 @@ fn lookup(body: &str) -> String {
     }
 }
 
+fn va_of(x: &Sx) -> VirtualAttributions {
+    use git_ai::authorship::attribution_tracker::{Attribution, attributions_to_line_attributions};
+    let repo = find_repository_in_path(&scratch_repo()).expect("repo");
+    let mut attrs = HashMap::new();
+    let mut contents = HashMap::new();
+    for f in x.list() {
+        let l = f.list();
+        let (path, content) = (l[0].string(), l[1].string());
+        let chars: Vec<Attribution> = l[2]
+            .list()
+            .iter()
+            .map(|a| {
+                let al = a.list();
+                Attribution::new(al[0].num() as usize, al[1].num() as usize, al[2].string(), al[3].num() as u128)
+            })
+            .collect();
+        let lines = attributions_to_line_attributions(&chars, &content);
+        attrs.insert(path.clone(), (chars, lines));
+        contents.insert(path, content);
+    }
+    VirtualAttributions::new(repo, "base".to_string(), attrs, contents, 1)
+}
+
+/// in: PRIMARY SECONDARY FINAL  (VA = ((PATH CONTENT ((START END AUTHOR TS)...))...), FINAL = ((PATH CONTENT)...))
+/// out: ((PATH LINES_OF_ITS_CONTENT ((S E AUTHOR)...))...) of merge_attributions_favoring_first, sorted by path
+fn merge_vas(body: &str) -> String {
+    use git_ai::authorship::virtual_attribution::merge_attributions_favoring_first;
+    let xs = sexp::parse_many(body).expect("sexp");
+    let (primary, secondary) = (va_of(&xs[0]), va_of(&xs[1]));
+    let mut fin = HashMap::new();
+    for f in xs[2].list() {
+        let l = f.list();
+        fin.insert(l[0].string(), l[1].string());
+    }
+    let merged = match merge_attributions_favoring_first(primary, secondary, fin) {
+        Ok(m) => m,
+        Err(_) => return "err".into(),
+    };
+    let mut files = merged.files();
+    files.sort_by(|a, b| a.chars().map(|c| c as u32).collect::<Vec<_>>().cmp(&b.chars().map(|c| c as u32).collect::<Vec<_>>()));
+    let mut out = Vec::new();
+    for f in files {
+        let lc = merged.get_file_content(&f).map(|c| c.lines().count() as u64);
+        let mut las: Vec<(u32, u32, String)> = merged
+            .get_line_attributions(&f)
+            .map(|v| v.iter().map(|l| (l.start_line, l.end_line, l.author_id.clone())).collect())
+            .unwrap_or_default();
+        las.sort();
+        out.push(Sx::L(vec![
+            cps(&f),
+            match lc { Some(n) => Sx::N(n), None => sym("nocontent") },
+            Sx::L(las.into_iter().map(|(a, b, h)| Sx::L(vec![Sx::N(a as u64), Sx::N(b as u64), cps(&h)])).collect()),
+        ]));
+    }
+    Sx::L(out).show()
+}
+
 pub fn dispatch(mode: &str) -> Option<fn(&str) -> String> {
     match mode {
         "c05-path" => Some(path_for_object),
@@ -187,6 +244,7 @@ pub fn dispatch(mode: &str) -> Option<fn(&str) -> String> {
         "c05-remap" => Some(remap),
         "c05-batch-write" => Some(batch_write),
         "c05-lookup" => Some(lookup),
+        "c05-merge" => Some(merge_vas),
         _ => None,
     }
 }
